@@ -261,7 +261,7 @@ def concrete_check(sk: Any, payloads: Dict[int, Any], states: Dict[str, int], va
     if hasattr(v, "item"):
         v = v.item()
     if isinstance(v, float) and (v != v or v in (float("inf"), float("-inf"))):
-        if exact is not None and abs(float(exact)) < 1e300:
+        if exact is not None and abs(exact) < 10**300:
             return [("nonfinite", f"{text} returned {v}; exact value {exact}")]
         if v == v and kind(tree) == "div":
             try:
@@ -373,9 +373,15 @@ BIG = [
 
 def run(tier: str) -> int:
     rep = Report("C05", tier)
-    n = 4 if tier == "quick" else 5
-    sks = list(enum_upto(n, unops=UNOPS, variables=("x", "y") if tier == "quick" else ("x",)))
-    if tier == "quick":
+    n = 4
+    sks = list(enum_upto(n, unops=UNOPS, variables=("x", "y")))
+    five: List[Any] = []
+    if tier != "quick":
+        # 5-node trees over one variable: a seeded sample sized to the budget (the full set of 3319 does not finish)
+        five = [t for t in enum_upto(5, unops=UNOPS, variables=("x",)) if sk_size(t) == 5]
+        random.Random(seed()).shuffle(five)
+        five = five[:500]
+    if True:
         # 5-node quotients: a / (b op c) and (b op c) / a - the zero-divisor guard meets every operator's result type
         lv = [("const", 0), ("var", "x")]
         for op in ("add", "sub", "mul", "div", "pow"):
@@ -388,9 +394,9 @@ def run(tier: str) -> int:
     big = [renumber(b) for b in BIG]
     from ..trees import grid_text, use_grid
 
-    use_grid("quick" if tier == "quick" else "full")
-    rep.bounds = {"trees": f"every tree with <= {n} nodes over const/x(/y), + - * / ^, neg sgn abs fact, and every 5-node quotient "
-                           f"a / (b op c), (b op c) / a ({len(sks)}), "
+    use_grid("quick")  # the 25-value grid doubles every realisation fan-out: measured, the <= 4-node family alone then overruns
+    rep.bounds = {"trees": f"every tree with <= {n} nodes over const/x/y, + - * / ^, neg sgn abs fact, and every 5-node quotient "
+                           f"a / (b op c), (b op c) / a ({len(sks)}), " + (f"a seeded sample of {len(five)} of the 3319 other 5-node trees over const/x, " if five else "") +
                            f"{len(eqs)} equations, {len(big)} large-magnitude seeds (exponents 33..100, 25!, 10^30)",
                   "payloads": "unbounded reals/integers with lazily decided Python type (int or float); exponents -2..4; "
                               "factorial operands 0..5; grid " + grid_text() + " where a concrete value is required",
@@ -410,5 +416,6 @@ def run(tier: str) -> int:
     items = sks + eqs + big
     random.Random(seed()).shuffle(items)
     items.sort(key=lambda s: -sk_size(s))
+    items = items + five  # the sample last: a budget cut then costs sample members, not the exhaustive families
     collect(rep, pmap(worker, items, budget_s=420 if tier == "quick" else 720, chunk=8))
     return rep.finish(required_reach=["evaluate"])
